@@ -166,6 +166,9 @@ pub struct RefDict {
     pub bigram: Option<Bigram>,
     /// K2 quirk of the pinned tree: characters above U+FFFF take U+0000's entry.
     pub astral_takes_nul: bool,
+    /// position of DEFAULT's definition line among the category lines of char.def (ids do not
+    /// depend on it: DEFAULT is always 0, the others are numbered by first definition)
+    pub default_line_pos: usize,
 }
 
 #[derive(Clone, Copy, Debug, PartialEq, Eq, Hash)]
@@ -284,7 +287,10 @@ impl RefDict {
 
     pub fn render_char_def(&self) -> String {
         let mut s = String::new();
-        for c in &self.cats {
+        let mut order: Vec<usize> = (1..self.cats.len()).collect();
+        order.insert(self.default_line_pos.min(order.len()), 0);
+        for i in order {
+            let c = &self.cats[i];
             s.push_str(&format!(
                 "{} {} {} {}\n",
                 c.name,
